@@ -5,6 +5,7 @@ import Tw.Proofs.SnapMgrSys
 import Tw.Proofs.SnapMgrInst
 import Tw.Proofs.SnapChain
 import Tw.Proofs.SnapMgrC
+import Tw.Proofs.SnapBound
 
 /-!
 # C13 — client and server snapshot state never diverge silently
@@ -56,8 +57,9 @@ theorem accepted_snapshot_is_senders {S D : Type} (ops : Ops S D) (laws : Laws o
       (∀ s, res = .ok (some s) → (t, s) ∈ y.sent ∧ after = some t) ∧
       (res = .ok none → after = before) ∧
       (∀ e, res = .error e → after = before ∨ after = none) := by
-  obtain ⟨hg, hobs, _⟩ := run_safe laws evs {} none good_init (by intro p hp; cases hp) hapi y obs hrun
-  refine ⟨hg.sentFun, ?_⟩
+  obtain ⟨hg, hobs, _⟩ := run_safe laws.on evs {} none ⟨good_init, fun _ _ => trivial⟩
+    (by intro p hp; cases hp) hapi (fun _ _ _ _ _ => trivial) y obs hrun
+  refine ⟨hg.1.sentFun, ?_⟩
   intro t res before after hmem
   have h := hobs _ hmem
   refine ⟨?_, ?_, ?_⟩
@@ -70,23 +72,24 @@ over the snapshots with the builder's registry invariant (`ExtOk`, established f
 builder-reachable snapshot by C10) whose item sizes agree with the object-size table: this is
 C09's `applyDelta_createDelta`, C10's `buildFromRaw_of_extOk` and `readDelta_writeInts`, and C08's
 `writeInt_length`. -/
-theorem laws_of_snapshot_model (objSize : Nat → Option Nat) : Laws (snapOps objSize) :=
-  snapOps_laws objSize
+theorem laws_of_snapshot_model (objSize : Nat → Option Nat) (refGlue : Bool) :
+    Laws (snapOps objSize refGlue) :=
+  snapOps_laws objSize refGlue
 
-/-- **C13 for the concrete snapshot model**: `accepted_snapshot_is_senders` with `Delta::create`,
+/-- **C13 for the concrete snapshot model**: `accepted_snapshot_is_senders` (either sender glue) with `Delta::create`,
 `Delta::write`, `Delta::read`, `Snap::read_with_delta` and `Snap::crc` of `Model/Snap.lean` as
 the snapshot layer — no law is assumed any more. -/
-theorem accepted_snapshot_is_senders_snap_model (objSize : Nat → Option Nat)
+theorem accepted_snapshot_is_senders_snap_model (objSize : Nat → Option Nat) (refGlue : Bool)
     (evs : List (Ev { s : Tw.Snap.Snap // GoodSnap objSize s })) (hapi : sendsOk none evs)
     (y : Sys { s : Tw.Snap.Snap // GoodSnap objSize s })
     (obs : List (Obs { s : Tw.Snap.Snap // GoodSnap objSize s }))
-    (hrun : Sys.run (snapOps objSize) {} evs = .ok (y, obs)) :
+    (hrun : Sys.run (snapOps objSize refGlue) {} evs = .ok (y, obs)) :
     Functional y.sent ∧
     ∀ t res before after, Obs.delivered t res before after ∈ obs →
       (∀ s, res = .ok (some s) → (t, s) ∈ y.sent ∧ after = some t) ∧
       (res = .ok none → after = before) ∧
       (∀ e, res = .error e → after = before ∨ after = none) :=
-  accepted_snapshot_is_senders (snapOps objSize) (snapOps_laws objSize) evs hapi y obs hrun
+  accepted_snapshot_is_senders (snapOps objSize refGlue) (snapOps_laws objSize refGlue) evs hapi y obs hrun
 
 /-- **C13, safety, with the builder and the free list.**  The same statement for histories in
 which the sender builds its snapshots with `new_builder()` (seeded from the newest stored snapshot,
@@ -101,8 +104,14 @@ theorem accepted_snapshot_is_senders_with_builder {S D I : Type} (ops : Ops S D)
       (∀ s, res = .ok (some s) → (t, s) ∈ y.sys.sent ∧ after = some t) ∧
       (res = .ok none → after = before) ∧
       (∀ e, res = .error e → after = before ∨ after = none) := by
-  obtain ⟨hg, hobs, _⟩ := runB_safe laws b evs {} none good_init (by intro p hp; cases hp) hapi y obs hrun
-  refine ⟨hg.sentFun, ?_⟩
+  have hbk : ∀ e, e ∈ evs → BuildKeeps b (fun _ => True) e := by
+    intro e _
+    cases e with
+    | sendItems t items => intro _ _ _ _; trivial
+    | other e => cases e <;> trivial
+  obtain ⟨hg, hobs, _⟩ := runB_safe laws.on b trivial evs {} none (goodB_init laws.on)
+    (by intro p hp; cases hp) hapi hbk y obs hrun
+  refine ⟨hg.1.1.sentFun, ?_⟩
   intro t res before after hmem
   have h : Obs.ok y.sys.sent (Obs.delivered t res before after) := hobs _ hmem
   refine ⟨?_, ?_, ?_⟩
@@ -156,8 +165,9 @@ theorem exchange_invariant {S D : Type} (ops : Ops S D) (laws : Laws ops)
     (∀ s, s ∈ y.sender.snaps → (s.tick, s.snap) ∈ y.sent) ∧
     (∀ t, y.sender.deltaTick = some t → 0 ≤ t ∧ ∃ d, y.sender.snaps.getLast? = some d ∧ d.tick = t) ∧
     RecvOk y.xfers y.client.receiver := by
-  obtain ⟨hg, _, _⟩ := run_safe laws evs {} none good_init (by intro p hp; cases hp) hapi y obs hrun
-  exact ⟨hg.clientStored, hg.senderStored, hg.senderDelta, hg.recvOk⟩
+  obtain ⟨hg, _, _⟩ := run_safe laws.on evs {} none ⟨good_init, fun _ _ => trivial⟩
+    (by intro p hp; cases hp) hapi (fun _ _ _ _ _ => trivial) y obs hrun
+  exact ⟨hg.1.clientStored, hg.1.senderStored, hg.1.senderDelta, hg.1.recvOk⟩
 
 /-- The receiver alone: whatever consistent transfers are interleaved in whatever way (newer ticks
 included), a delivery carries exactly the base tick, tick, data and checksum the sender cut up (no
@@ -228,11 +238,80 @@ incl. forged ones, any losses).  Then a history either runs to the end — no pa
 `Delta::write`, `delta_chunks`, `Storage` — or it panics and some packed delta was larger than the
 buffer `send_snapshots` reserves.  What keeps this from `C13_full`: the buffer of the server glue. -/
 theorem sender_panics_only_on_buffer_overflow_partial (objSize : Nat → Option Nat)
-    (size : Tw.Snap.TypeId → Nat → Nat) (ht : TableOk objSize size)
+    (size : Tw.Snap.TypeId → Nat → Nat) (ht : TableOk objSize size) (refGlue : Bool)
     (evs : List (EvB Tw.Snap.Snap (List Item))) (hev : ∀ e, e ∈ evs → EvOk size e) :
-    (∃ r, SysB.run (execOps objSize) execBuild {} evs = .ok r) ∨
-    ((∃ s, SysB.run (execOps objSize) execBuild {} evs = .panic s) ∧ Oversize objSize) :=
-  runB_no_panic ht evs {} (invB_init size) hev
+    (∃ r, SysB.run (execOps objSize refGlue) execBuild {} evs = .ok r) ∨
+    ((∃ s, SysB.run (execOps objSize refGlue) execBuild {} evs = .panic s) ∧ Oversize objSize) :=
+  runB_no_panic ht refGlue (Q := fun _ => True) trivial evs {} (invB_init size _) hev
+    (fun e _ => by cases e with
+      | sendItems t items => intro _ _ _ _ _ _; trivial
+      | other e => trivial)
+
+/-- **No panic at all within a size budget (partial only by that budget).**  The same executable
+model and application-level hypotheses, plus a budget per snapshot: UUID types among a fixed list
+`U`, at most `N` items, at most `M` data integers, with `5·(3 + 4·(|U|+N) + 4·|U| + M) ≤ 65536`
+(e.g. 8 UUID types, 200 items, 8000 integers).  Then **no history panics**: not the builder, not
+`Delta::create`, not `Delta::write`, not the glue's 64 KiB buffer, not `delta_chunks`, not
+`Storage`, not the receiver, not the `Manager` — for any `i32` ticks (increasing or not), any
+acknowledgements (forged ones included), any loss, duplication and reordering, either sender glue.
+The bound comes from `Delta::write` emitting at most `3 + |a| + 3·|b| + data(b)` integers of at most
+five bytes each, and a snapshot of the builder chain having at most `|U| + N` items. -/
+theorem exchange_never_panics_within_budget_partial (objSize : Nat → Option Nat)
+    (size : Tw.Snap.TypeId → Nat → Nat) (ht : TableOk objSize size) (refGlue : Bool)
+    (U : List Int) (N M : Nat) (hk : 5 * (3 + 4 * (U.length + N) + (4 * U.length + M)) ≤ 65536)
+    (evs : List (EvB Tw.Snap.Snap (List Item))) (hev : ∀ e, e ∈ evs → EvOk size e)
+    (hbud : ∀ e, e ∈ evs → EvBudget U N M e) :
+    ∃ r, SysB.run (execOps objSize refGlue) execBuild {} evs = .ok r :=
+  runB_never_panics ht refGlue U N M hk evs hev hbud
+
+/-- **C13 over one executable model.**  Snapshot layer of `Model/Snap.lean` over plain values
+(`execOps`), builder with `recycle`, free list, glue buffer, either sender glue, the C12 receiver,
+`Manager` and `Storage`: for every history in which the application adds acceptable items (`EvOk`) and
+the ticks are `i32`s and increasing (`sendsOkB`), whatever the delivery schedule, if the run does not
+hit the glue's buffer limit then every accepted snapshot is the sender's snapshot for that tick
+and sets `ack_tick`, an incomplete transfer leaves `ack_tick` alone, and an error leaves it alone or
+clears it.  The laws of the snapshot layer are *proved* for the executable layer on the snapshots
+the builder chain makes (`execOps_lawsOn`), nothing is assumed. -/
+theorem exchange_safe_executable_model (objSize : Nat → Option Nat)
+    (size : Tw.Snap.TypeId → Nat → Nat) (ht : TableOk objSize size) (refGlue : Bool)
+    (evs : List (EvB Tw.Snap.Snap (List Item))) (hev : ∀ e, e ∈ evs → EvOk size e)
+    (hapi : sendsOkB none evs)
+    (y : SysB Tw.Snap.Snap) (obs : List (ObsB Tw.Snap.Snap))
+    (hrun : SysB.run (execOps objSize refGlue) execBuild {} evs = .ok (y, obs)) :
+    Functional y.sys.sent ∧
+    ∀ t res before after, ObsB.obs (Obs.delivered t res before after) ∈ obs →
+      (∀ s, res = .ok (some s) → (t, s) ∈ y.sys.sent ∧ after = some t) ∧
+      (res = .ok none → after = before) ∧
+      (∀ e, res = .error e → after = before ∨ after = none) := by
+  have laws := execOps_lawsOn ht refGlue
+  obtain ⟨hg, hobs, _⟩ := runB_safe laws execBuild (Tw.Snap.built_empty size) evs {} none
+    (goodB_init laws) (by intro p hp; cases hp) hapi (fun e he => execBuild_keeps e (hev e he)) y obs hrun
+  refine ⟨hg.1.1.sentFun, ?_⟩
+  intro t res before after hmem
+  have h : Obs.ok y.sys.sent (Obs.delivered t res before after) := hobs _ hmem
+  refine ⟨?_, ?_, ?_⟩
+  · intro s hs; subst hs; exact h
+  · intro hs; subst hs; exact h
+  · intro e hs; subst hs; exact h
+
+/-- **C13 in one statement for the executable model (partial only by the budget).**  Application-level
+hypotheses only — acceptable items, increasing `i32` ticks, the size budget: every history runs to
+the end without a panic on either side, and every delivery obeys the verdict (accepted = the
+sender's snapshot for that tick with `ack_tick` set; otherwise `ack_tick` unchanged or cleared). -/
+theorem exchange_correct_within_budget_partial (objSize : Nat → Option Nat)
+    (size : Tw.Snap.TypeId → Nat → Nat) (ht : TableOk objSize size) (refGlue : Bool)
+    (U : List Int) (N M : Nat) (hk : 5 * (3 + 4 * (U.length + N) + (4 * U.length + M)) ≤ 65536)
+    (evs : List (EvB Tw.Snap.Snap (List Item))) (hev : ∀ e, e ∈ evs → EvOk size e)
+    (hbud : ∀ e, e ∈ evs → EvBudget U N M e) (hapi : sendsOkB none evs) :
+    ∃ y obs, SysB.run (execOps objSize refGlue) execBuild {} evs = .ok (y, obs) ∧
+      Functional y.sys.sent ∧
+      ∀ t res before after, ObsB.obs (Obs.delivered t res before after) ∈ obs →
+        (∀ s, res = .ok (some s) → (t, s) ∈ y.sys.sent ∧ after = some t) ∧
+        (res = .ok none → after = before) ∧
+        (∀ e, res = .error e → after = before ∨ after = none) := by
+  obtain ⟨⟨y, obs⟩, hrun⟩ := exchange_never_panics_within_budget_partial objSize size ht refGlue U N M hk
+    evs hev hbud
+  exact ⟨y, obs, hrun, exchange_safe_executable_model objSize size ht refGlue evs hev hapi y obs hrun⟩
 
 /-- The full-strength "nothing panics" statement: for *every* lawful snapshot layer.  It is false
 for a layer whose `create` can fail, and the real `Delta::create` can (open findings D15, D25). -/
@@ -282,6 +361,18 @@ theorem recycled_builder_chain_never_refuses {size : Tw.Snap.TypeId → Nat → 
     Tw.Snap.SizesAgree a.snap.raw b.snap.raw ∧
       ∃ d, Tw.Snap.createDelta a.snap.raw b.snap.raw = some d :=
   Tw.Snap.chain_create h0 h1
+
+-- non-vacuity of the budget: 8 UUID types, 200 items, 8000 data integers per snapshot
+example : 5 * (3 + 4 * (8 + 200) + (4 * 8 + 8000)) ≤ 65536 := by decide
+example : Budget [1, 2, 3] 200 8000 [(.uuid 2, 7, [1, 2, 3]), (.ordinal 5, 0, [4, 5, 6])] :=
+  { uuids := by
+      intro it hit u hu
+      simp only [List.mem_cons, List.not_mem_nil, or_false] at hit
+      rcases hit with rfl | rfl
+      · injection hu with hu; subst hu; decide
+      · cases hu
+    count := by decide
+    data := by decide }
 
 -- non-vacuity: the 0.6 object-size table with any size function that extends it satisfies `TableOk`
 example : TableOk (fun t => (Tw.Gen.Snap.objSize_tw06.find? (·.1 == t)).map (·.2))
